@@ -1095,12 +1095,13 @@ class Bounded:
     def nontrivial(self, case):
         return True
 
-    def known(self, case):
-        """Return a known-finding id if this failing case lies in a listed region."""
+    def known(self, case, what=""):
+        """Return a known-finding id if this failing case lies in a listed region (the region predicate
+        sees the case and the failure text `what`)."""
         from . import findings
         for r in findings.for_obligation_prefix("%s/bounded/%s" % (self.prop, type(self).__name__)):
             try:
-                if r["fn"](case):
+                if r["fn"](case, str(what)):
                     return r["id"]
             except Exception:
                 pass
@@ -1136,7 +1137,7 @@ def run_bounded_check(b: Bounded, tier="quick", seed=0, budget_s=None):
         if len(samples) < 3 and evals % 11 == 1:
             samples.append(jsonable(case))
         if r is not None:
-            kid = b.known(case)
+            kid = b.known(case, r)
             if kid is not None:
                 known_hits[kid] = known_hits.get(kid, 0) + 1
                 continue
